@@ -48,7 +48,7 @@ def parseColData (j : Json) : Except String (List (Nat × List Cell)) := do
 def parseCfg (j : Json) : Except String Cfg := do
   let b (k : String) : Except String Bool := match j.getObjVal? k with | .ok v => v.getBool? | .error _ => pure false
   pure { dedupIn := ← b "dedupIn", notinKey := ← b "notinKey", localOp := ← b "localOp", guardEmpty := ← b "guardEmpty",
-         dedupIdx := ← b "dedupIdx", missingLe := ← b "missingLe", matchEmpty := ← b "matchEmpty" }
+         dedupIdx := ← b "dedupIdx", missingLe := ← b "missingLe", missingGe := ← b "missingGe", matchEmpty := ← b "matchEmpty", dictLen := ← b "dictLen" }
 
 def parseInit (j : Json) : Except String Init := do
   match (← str (← field j "kind")) with
